@@ -209,7 +209,13 @@ class Interp:
             return b""
         r, off = self._locate(addr, size, False)
         if r.init[off:off + size].count(1) != size:
-            raise Undefined("read of uninitialised byte in %s+%d" % (r.name, off))
+            fill = getattr(self, "uninit_fill", None)
+            if fill is None:
+                raise Undefined("read of uninitialised byte in %s+%d" % (r.name, off))
+            # opt-in (set .uninit_fill = 0..255 after construction): uninitialised bytes read as that value; a caller that wants to know
+            # whether a result depends on them runs twice with different fill values and compares
+            self.uninit_reads = getattr(self, "uninit_reads", 0) + 1
+            return bytes(r.data[off + i] if r.init[off + i] else fill for i in range(size))
         return bytes(r.data[off:off + size])
 
     def write_bytes(self, addr, data):
@@ -395,6 +401,12 @@ class Interp:
                 elif t is ir.Store:
                     a = val(env, ins.address)
                     v = val(env, ins.value)
+                    if ins.value.ty.is_blob:
+                        # "store <blob value>, addr" (struct assignment / struct return through the hidden pointer): copy the bytes
+                        if not (isinstance(v, tuple) and v[0] == "blob"):
+                            raise Undefined("store of a non-blob value with blob type")
+                        self.copy_blob(a, v[1], ins.value.ty.size)
+                        continue
                     self.write_bytes(a, self.to_bytes(ins.value.ty, v))
                 elif t is ir.Cast:
                     env[ins] = self.cast(ins.src.ty, ins.ty, val(env, ins.src))
@@ -448,6 +460,11 @@ class Interp:
                     env[ins] = ("blob", base)
                 elif t is ir.CopyBlob:
                     d, s = val(env, ins.dst), val(env, ins.src)
+                    # ppci's C front end passes the blob value itself (an Alloc / blob parameter) as well as its address
+                    if isinstance(d, tuple) and d[0] == "blob":
+                        d = d[1]
+                    if isinstance(s, tuple) and s[0] == "blob":
+                        s = s[1]
                     self.copy_blob(d, s, ins.amount)
                 elif t is ir.Phi:
                     raise Undefined("phi after non-phi instruction")
